@@ -158,12 +158,15 @@ class Device:
         self.sessions.append(s)
         return s
 
-    def begin(self, script=None):
+    def begin(self, kinds, script=None, state2_reply=None):
+        """Start answering a new operation whose valid exchange has the frame kinds `kinds`."""
+        self.kinds = list(kinds)
         self.script = script
         self.pos = 0
+        self.state2_reply = state2_reply if state2_reply is not None else RP.thermostat(**self.thermo)
 
-    def standard(self, pos, chunk, kinds):
-        kind = kinds[pos] if pos < len(kinds) else None
+    def standard(self, pos, chunk):
+        kind = self.kinds[pos] if pos < len(self.kinds) else None
         if kind in ("login1", "login2"):
             return RP.login(self.new_session())
         if kind == "get_state1":
@@ -174,22 +177,17 @@ class Device:
             return RP.schedules(self.sched_records)
         return RP.generic()
 
-    def responder(self, kinds, state2_reply=None):
-        self.state2_reply = state2_reply if state2_reply is not None else RP.thermostat(**self.thermo)
-
-        def respond(conn, chunk):
-            pos = self.pos
-            self.pos += 1
-            if self.script is not None and pos < len(self.script) and self.script[pos] is not Ellipsis:
-                r = self.script[pos]
-                if r is not None and r is not False and pos < len(kinds) and kinds[pos].startswith("login"):
-                    # scripted login replies still count as logins for session bookkeeping
-                    self.logins += 1
-                    self.sessions.append(bytes(r[8:12]) if len(r) >= 12 else None)
-                return r
-            return self.standard(pos, chunk, kinds)
-
-        return respond
+    def respond(self, conn, chunk):
+        pos = self.pos
+        self.pos += 1
+        if self.script is not None and pos < len(self.script) and self.script[pos] is not Ellipsis:
+            r = self.script[pos]
+            if pos < len(self.kinds) and self.kinds[pos].startswith("login"):
+                # scripted login replies still count as logins for session bookkeeping
+                self.logins += 1
+                self.sessions.append(bytes(r[8:12]) if r and len(r) >= 12 else None)
+            return r
+        return self.standard(pos, chunk)
 
 
 class ApiWorld:
@@ -233,13 +231,13 @@ class ApiWorld:
         r0 = len(conn.rx)
         if state2_reply is None and op == "get_shutter_state":
             state2_reply = RP.shutter(*self.device.shutter)
-        self.device.begin(script)
+        self.device.begin(expected_shape(op, args), script, state2_reply)
         try:
             coro = call(self.api, op, args)
         except Exception as exc:  # noqa: BLE001 - argument conversion failed before any I/O
             return ("exc", exc), [], []
         try:
-            t = self.loop.run_task(coro, self.device.responder(expected_shape(op, args), state2_reply))
+            t = self.loop.run_task(coro, self.device.respond)
             out = task_outcome(t)
         except Hang:
             out = ("hang", None)
